@@ -241,6 +241,43 @@ def run(tier):
                                      printed=[k[2:] for k in printed if k[0] == rep["id"] and k[1] == rep["msg"]][:5]))
         records.append({"files": [{"id": 0, "known": True, "chars": chars_of(text)}], "labels": [{k: lb[k] for k in ("file", "s", "e", "primary", "sl", "sc", "el", "ec")} for lb in labels]})
         meta.append((info, labels))
+    # ---- projects of two files (main includes lib): a label must name the file its range belongs to. Findings about a component
+    #      whose template lives in the included file (unused outputs, curve-specific templates, unconstrained LessThan inputs ..)
+    LIBS = ["pragma circom 2.0.0;\n// %s\ntemplate Sq() {\n  signal input in;\n  signal output out;\n  signal output aux;\n  out <== in * in;\n  aux <== in + 1;\n}\n"
+            "template Num2Bits(n) {\n  signal input in;\n  signal output out[n];\n  var lc = 0;\n  for (var i = 0; i < n; i++) {\n    out[i] <-- (in >> i) & 1;\n    out[i] * (out[i] - 1) === 0;\n    lc += out[i] * 2 ** i;\n  }\n  lc === in;\n}\n"
+            "template LessThan(n) {\n  signal input in[2];\n  signal output out;\n  component n2b = Num2Bits(n + 1);\n  n2b.in <== in[0] + (1 << n) - in[1];\n  out <== 1 - n2b.out[n];\n}\n" % c
+            for c in ("lib", "日本語のコメント " * 12, "é" * 40)]
+    MAINS = ["pragma circom 2.0.0;\ninclude \"lib.circom\";\ntemplate M() {\n  signal input a;\n  signal output b;\n  component s = Sq();\n  s.in <== a;\n  b <== s.out;\n}\n",
+             "pragma circom 2.0.0;\ninclude \"lib.circom\";\n// 日本\ntemplate M() {\n  signal input a;\n  signal output b;\n  component lt = LessThan(8);\n  lt.in[0] <== a;\n  lt.in[1] <== 5;\n  b <== lt.out;\n  component nb = Num2Bits(254);\n  nb.in <== a;\n}\n",
+             "pragma circom 2.0.0;\ninclude \"lib.circom\";\ntemplate M() {\n  signal input a;\n  signal output b;\n  (b, _) <== Sq()(a);\n}\n"]
+    mprojects = [(mi, li, [{"path": "main.circom", "named": True, "text": tf(m, mi)}, {"path": "lib.circom", "named": False, "text": tf(lb_, li)}])
+                 for mi, m in enumerate(MAINS) for li, lb_ in enumerate(LIBS) for tn, tf in TRANSFORMS if tn in ("identity", "multibyte-comments", "crlf")]
+    write_ndjson(pin, [{"id": i, "files": fs} for i, (_, _, fs) in enumerate(mprojects)])
+    vh(["produce", pin, pout], timeout=3000)
+    for (mi, li, fs), od in zip(mprojects, read_ndjson(pout)):
+        if "panic" in od:
+            continue
+        info = {"origin": "two-files", "files": fs}
+        fidx = {f["path"]: k + 1 for k, f in enumerate(fs)}
+        reps = list(od["parse"])
+        for d in od["defs"]:
+            if d["named"] and "panic" not in d:
+                reps += d["cfg_reports"] + d["pass_reports"]
+        labels = []
+        for rep in reps:
+            for kind, ls in (("primary", rep["primary"]), ("secondary", rep["secondary"])):
+                for l in ls:
+                    labels.append({"file": fidx.get(l["file"], 0), "s": l["s"], "e": l["e"], "primary": kind == "primary", "sl": 0, "sc": 0, "el": 0, "ec": 0,
+                                   "id": rep["id"], "msg": rep["msg"], "lmsg": l["msg"]})
+                    nlabels += 1
+                    # a `declared here` / `is declared` label must show the declaration of the name its message quotes
+                    for name in QUOTED.findall(l["msg"])[:1]:
+                        if l["text"] is not None and "declared here" in l["msg"] and not re.search(r"(?<![A-Za-z0-9_$])%s(?![A-Za-z0-9_$])" % re.escape(name), l["text"]):
+                            v.violation("location:label does not contain the identifier its message is about",
+                                        dict(info, report=rep["id"], message=l["msg"], label_text=l["text"], identifier=name))
+        records.append({"files": [{"id": k, "known": True, "chars": chars_of(f["text"])} for k, f in enumerate(fs)],
+                        "labels": [{k: lb[k] for k in ("file", "s", "e", "primary", "sl", "sc", "el", "ec")} for lb in labels]})
+        meta.append((info, labels))
     # B
     for pi, by_t in texts_by_prog.items():
         ref = collections.Counter(by_t.get("identity", []))
